@@ -15,6 +15,9 @@ import (
 // all 256 value bits, both lengths and the shift/position operands are symbolic.
 
 func vxBA(name string) (BitArray, uint, vx.W256) {
+	// each method is explored case by case (no callee summarisation): the per-case queries are much
+	// easier for the solvers than one merged ite term
+	vx.NoMerge(true)
 	var b BitArray
 	b.len = vx.U8(name + ".len")
 	w := vx.W256Input(name + ".val")
